@@ -69,10 +69,18 @@ func Profile(name string) GenConfig {
 		c.Display = true
 		c.Wrappers = true
 	case "errors":
+		c.EmptyClass = true
 		c.Wrappers = false
 		c.EmptyLit = false
 	case "throwrecover":
 		c.Code = true
+		c.Throw = true
+		c.Wrappers = true
+	case "statefulthrow":
+		// state blocks together with throw / recover (every failed handler, every handler that
+		// matched and every throw that fell through must leave the store as the contract says)
+		c.Code = true
+		c.StateBlocks = true
 		c.Throw = true
 		c.Wrappers = true
 	case "memo":
